@@ -34,6 +34,10 @@ pub(crate) struct RepSocket {
   ingress_engine: AddressedIngressEngine,
   pending_pipe_senders: ParkingLotMutex<HashMap<usize, PipeMessageSender>>,
   state: ParkingLotMutex<RepState>,
+  /// Held by recv()/recv_multipart() from the state check until the state update, so that of
+  /// several racing receive calls only one can pass the ReadyToReceive check and remember its
+  /// requester. Released on drop (cancel-safe).
+  recv_turn: tokio::sync::Mutex<()>,
   pipe_read_id_to_endpoint_uri: RwLock<HashMap<usize, String>>,
 }
 
@@ -45,6 +49,7 @@ impl RepSocket {
       ingress_engine: AddressedIngressEngine::new(max_conn),
       pending_pipe_senders: ParkingLotMutex::new(HashMap::new()),
       state: ParkingLotMutex::new(RepState::ReadyToReceive),
+      recv_turn: tokio::sync::Mutex::new(()),
       pipe_read_id_to_endpoint_uri: RwLock::new(HashMap::new()),
     }
   }
@@ -143,6 +148,9 @@ impl ISocket for RepSocket {
     if !self.core.is_running() {
       return Err(ZmqError::InvalidState("Socket is closing".into()));
     }
+    // Only one receive call at a time may go from the state check to the state update; a
+    // racing call waits here and is then judged against the state the first one left.
+    let _recv_turn = self.recv_turn.lock().await;
     {
       let guard = self.state.lock();
       if !matches!(*guard, RepState::ReadyToReceive) {
@@ -229,6 +237,9 @@ impl ISocket for RepSocket {
     if !self.core.is_running() {
       return Err(ZmqError::InvalidState("Socket is closing".into()));
     }
+    // Only one receive call at a time may go from the state check to the state update; a
+    // racing call waits here and is then judged against the state the first one left.
+    let _recv_turn = self.recv_turn.lock().await;
     {
       let guard = self.state.lock();
       if !matches!(*guard, RepState::ReadyToReceive) {
